@@ -1,6 +1,6 @@
 (* Properties_C10.v — obligations of property C10 (the AF list is exactly the set of valid FM
    codes received in 0A). *)
-Require Import ObsRun Lemmas_AfHist Lemmas_CbAf.
+Require Import ObsRun Lemmas_AfHist Lemmas_CbAf Lemmas_ObsAf.
 Local Open Scope Z_scope.
 
 (* For EVERY history, after every call, the 26-byte bitmap the AF getter returns is
@@ -42,6 +42,14 @@ Theorem C10_af_callbacks : forall conv lut h g s, reach conv lut h s -> wf_group
   else evs = [] /\ a2 = a0.
 Proof. exact af_callbacks. Qed.
 Print Assumptions C10_af_callbacks.
+
+(* THE OBSERVER: bitmap = set of codes received at least thr times since the last reset, and the AF
+   callbacks of the call are exactly the group's own codes that became listed, in block order, with
+   87500 + 100 * code kHz and a sampled list that already contains the code *)
+Theorem C10_observer : forall conv lut h s o ret, reach conv lut h s -> wf_op o ->
+  obs_C10 (o :: h) (snap_of s) (snap_of (fst (step conv lut s o))) (snd (step conv lut s o)) ret = true.
+Proof. exact obs_C10_holds. Qed.
+Print Assumptions C10_observer.
 
 Example C10_scenario : check_run_u (observer_u 10) scenario = true.
 Proof. vm_compute. reflexivity. Qed.
